@@ -35,6 +35,17 @@ CLAIMED.update({
    design="§7 C19", technique="contract-based deductive verification (call-site preconditions, nil-safety obligations; SMT)"),
 })
 
+CLAIMED.update({
+ "C14": dict(
+   text="Deductive proof that parameter values reach the checkers unchanged and that thresholds are exact: CheckerParams.Int/Bool/String return the registered value; "
+        "each of the 12 parameterised constructors stores exactly info.Params[<name>].Value into the checker field; CLI assignCheckerParams and analyzer newGocritic write "
+        "the flag cell of key '@'+name+'.'+param into that parameter (per-iteration postconditions over the map range); getCheckersInfo shares the Params map with the prototype; "
+        "every registration site registers parameter cells it allocated itself (no sharing between checkers); the decision sites of hugeParam, rangeValCopy, rangeExprCopy, "
+        "tooManyResults and nestingReduce warn exactly when the measured quantity is at the documented side of the threshold, and the size quoted is SizesInfo.Sizeof of that type "
+        "(SizeOf returns it whenever it reports ok). Monotonicity follows from the >= / > form of these postconditions. ifElseChain's chain counting and commentedOutCode's length guard are not yet under contract.",
+   design="§7 C14", technique="contract-based deductive verification (ghost event log for emitted warnings, loop-body postconditions; SMT)"),
+})
+
 NA_REASON_PENDING = "check not built yet in this round (planned, DESIGN §7); not claimed until its obligations discharge"
 NOT_APPLICABLE = {
  "C11": "no contract within reach can state equality of Go-regexp match behaviour between a pattern and the string printed from a third-party parse tree (DESIGN §8)",
